@@ -20,7 +20,7 @@ LEVEL = 'model_checking'
 TECHNIQUE = ('bounded exhaustive enumeration of (program, token gap, trivia replacement) and depth-2 sequences on the real '
              "put_src(action='offset'), every execution compared with a from-scratch CPython parse incl. all positions")
 LEVEL_TEXT = ('every gap between adjacent tokens (incl. start/end of source, next to zero-width nodes, after multi-byte text) '
-              'of 52 programs x 16 trivia replacements is executed on the real code; depth 2 repeats a second edit after '
+              'of 80 programs x 16 trivia replacements is executed on the real code; depth 2 repeats a second edit after '
               'every first; nothing is sampled')
 LEVEL_NOTE = ('trusted: CPython tokenize/ast; the target node is addressed by descending pfst children whose reported loc '
               'strictly contains the spot (addressing only; locations themselves are judged by C06)')
